@@ -35,51 +35,52 @@ Qed.
 Section WithEval.
 Variable ev : string -> dict -> evalres.
 
-(* the steps of the tail after the transitions keep a decided record *)
-Lemma after_queue_frozen : forall fuel i r0 t route idx st q c c' res, decided r0 -> Forall cmd_pair q ->
-  (unreachable <- wf_task_event_M t route st ;;
-   log_unreachable unreachable ;;;
-   forM_ q (uts_call (update_task_state_fuel ev fuel)) ;;;
-   w <- getws ;;
-   if status_in (wstatus w) COMPLETED_STATUSES then upd_rec idx (fun r => r_set_term r true) else ret tt) c = (c', res) ->
-  Fz i r0 c -> Fz i r0 c'.
+(* the engine's delivery of queued commands keeps a decided record, and moves the status along the table only *)
+Definition rec_ok (rec : string -> nat -> event -> M unit) : Prop :=
+  (forall i r0 n rt e, decided r0 -> is_engine_command n = true -> preserves (FrozenProofs.Rf i r0) (rec n rt e)) /\
+  (forall n rt e, preserves StatusReach.Rst (rec n rt e)).
+Lemma rec_ok_fuel : forall fuel, rec_ok (update_task_state_fuel ev fuel).
 Proof.
-  intros fuel i r0 t route idx st q c c' res Hd Hq H.
-  revert c c' res H. change (preserves (FrozenProofs.Rf i r0) (unreachable <- wf_task_event_M t route st ;;
-   log_unreachable unreachable ;;;
-   forM_ q (uts_call (update_task_state_fuel ev fuel)) ;;;
-   w <- getws ;;
-   if status_in (wstatus w) COMPLETED_STATUSES then upd_rec idx (fun r => r_set_term r true) else ret tt)).
-  apply (preserves_bind _ (FrozenProofs.Rf_trans i r0)); [apply pfz_wf_task_event|intro unr].
-  apply (preserves_bind _ (FrozenProofs.Rf_trans i r0)); [apply pfz_log_unreachable|intros _].
-  apply (preserves_bind _ (FrozenProofs.Rf_trans i r0)).
-  - apply (preserves_forM_In _ (FrozenProofs.Rf_refl i r0) (FrozenProofs.Rf_trans i r0)). intros [n rt] Hin. unfold uts_call.
-    destruct (engine_event n) as [e|]; [|apply (preserves_raise _ (FrozenProofs.Rf_refl i r0))].
-    intros ca cb rr Hr Hfa. eapply (uts_frozen_w i r0 Hd ev); [exact Hr|exact Hfa|].
-    right; left. rewrite Forall_forall in Hq. exact (Hq _ Hin).
-  - intros _. apply (preserves_bind _ (FrozenProofs.Rf_trans i r0)); [apply (preserves_getws _ (FrozenProofs.Rf_refl i r0))|intro w].
-    destruct (status_in (wstatus w) COMPLETED_STATUSES); [apply pfz_upd_term|apply (preserves_ret _ (FrozenProofs.Rf_refl i r0))].
+  intro fuel. split.
+  - intros i r0 n rt e Hd Hc ca cb rr Hr Hfa. eapply (uts_frozen_w i r0 Hd ev); [exact Hr|exact Hfa|]. right; left; exact Hc.
+  - intros; apply pres_update_task_state_fuel.
+Qed.
+Lemma loop_frozen : forall rec i r0 q c c' res, rec_ok rec -> decided r0 -> Forall cmd_pair q ->
+  forM_ q (uts_call rec) c = (c', res) -> Fz i r0 c -> Fz i r0 c'.
+Proof.
+  intros rec i r0 q c c' res [Hrec _] Hd Hq H.
+  revert c c' res H. apply (preserves_forM_In _ (FrozenProofs.Rf_refl i r0) (FrozenProofs.Rf_trans i r0)).
+  intros [n rt] Hin. unfold uts_call.
+  destruct (engine_event n) as [e|]; [|apply (preserves_raise _ (FrozenProofs.Rf_refl i r0))].
+  apply Hrec; [exact Hd|]. rewrite Forall_forall in Hq. exact (Hq _ Hin).
+Qed.
+Lemma loop_reach : forall rec q c c' res, rec_ok rec ->
+  forM_ q (uts_call rec) c = (c', res) -> StatusReach.Rst c c'.
+Proof.
+  intros rec q c c' res [_ Hrec]. revert c c' res.
+  apply (preserves_forM _ StatusReach.Rst_refl StatusReach.Rst_trans). intros [n rt]. unfold uts_call.
+  destruct (engine_event n) as [e|]; [apply Hrec|apply (preserves_raise _ StatusReach.Rst_refl)].
 Qed.
 
-(* ... and after the workflow machine's step the status only moves along the table *)
-Lemma after_event_reach : forall fuel idx unr q c c' res,
-  (log_unreachable unr ;;;
-   forM_ q (uts_call (update_task_state_fuel ev fuel)) ;;;
+(* the tail after the transitions, taken apart *)
+Lemma after_queue_inv : forall rec t route idx st q c c',
+  (unreachable <- wf_task_event_M t route st ;;
+   log_unreachable unreachable ;;;
+   forM_ q (uts_call rec) ;;;
    w <- getws ;;
-   if status_in (wstatus w) COMPLETED_STATUSES then upd_rec idx (fun r => r_set_term r true) else ret tt) c = (c', res) ->
-  StatusReach.Rst c c'.
+   if status_in (wstatus w) COMPLETED_STATUSES then upd_rec idx (fun r => r_set_term r true) else ret tt) c = (c', Val tt) ->
+  exists c3 unr c4 c5,
+    wf_task_event_M t route st c = (c3, Val unr) /\ log_unreachable unr c3 = (c4, Val tt) /\
+    forM_ q (uts_call rec) c4 = (c5, Val tt) /\
+    (c' = c5 \/ c' = set_ws c5 (ws_update_rec (c_ws c5) idx (fun r => r_set_term r true))).
 Proof.
-  intros fuel idx unr q.
-  change (preserves StatusReach.Rst (log_unreachable unr ;;;
-   forM_ q (uts_call (update_task_state_fuel ev fuel)) ;;;
-   w <- getws ;;
-   if status_in (wstatus w) COMPLETED_STATUSES then upd_rec idx (fun r => r_set_term r true) else ret tt)).
-  apply (preserves_bind _ StatusReach.Rst_trans); [apply pres_log_unreachable|intros _].
-  apply (preserves_bind _ StatusReach.Rst_trans).
-  - apply (preserves_forM _ StatusReach.Rst_refl StatusReach.Rst_trans). intros [n rt]. unfold uts_call.
-    destruct (engine_event n) as [e|]; [apply pres_update_task_state_fuel|apply (preserves_raise _ StatusReach.Rst_refl)].
-  - intros _. apply (preserves_bind _ StatusReach.Rst_trans); [apply (preserves_getws _ StatusReach.Rst_refl)|intro w].
-    destruct (status_in (wstatus w) COMPLETED_STATUSES); [apply pres_upd_rec|apply (preserves_ret _ StatusReach.Rst_refl)].
+  intros rec t route idx st q c c' H.
+  apply bind_val_inv' in H. destruct H as [c3 [unr [E3 H]]].
+  apply bind_val_inv' in H. destruct H as [c4 [[] [E4 H]]].
+  apply bind_val_inv' in H. destruct H as [c5 [[] [E5 H]]].
+  apply bind_val_inv' in H. destruct H as [c6 [w [E6 H]]]. inversion E6; subst c6 w; clear E6.
+  exists c3, unr, c4, c5. split; [exact E3|]. split; [exact E4|]. split; [exact E5|].
+  destruct (status_in (wstatus (c_ws c5)) COMPLETED_STATUSES); [right|left]; inversion H; reflexivity.
 Qed.
 
 Lemma map_nth_same : forall A B (f : A -> B) l l' i a b, map f l' = map f l ->
@@ -103,7 +104,10 @@ Theorem unremediated_failure_fails_call : forall t route st res ts idx r s c c' 
   wstatus (c_ws c') = S_FAILED.
 Proof.
   intros t route st res ts idx r s c c' r' Wc Hip Hcmd Hg Hts Hit Hp Hr Hs Hin Hst Hrep Hnr H Hr' Hun.
-  unfold update_task_state in H. rewrite uts_unfold, body_eq in H.
+  unfold update_task_state in H. rewrite uts_unfold in H.
+  match type of H with uts_body _ ?rc _ _ _ _ = _ =>
+    assert (Hrec : rec_ok rc) by apply rec_ok_fuel; generalize dependent rc; intros rec H Hrec end.
+  rewrite body_eq in H.
   destruct (late_prefix ev t route st res ts idx r s c Wc (or_intror Hnr) Hcmd Hg Hts Hit Hp Hr Hs Hin Hst)
     as [c1 [ctx [E1 [K [Hr1 W1]]]]].
   rewrite (bind_step _ _ _ _ _ _ _ E1) in H. unfold tail_of in H. cbn [po_ts po_idx po_old po_new po_compl] in H.
@@ -118,15 +122,20 @@ Proof.
   rewrite Hs2 in H. rewrite (bind_step _ _ _ _ _ _ _ (eq_refl : ret S_FAILED c2 = (c2, Val S_FAILED))) in H.
   (* the record as the workflow machine sees it is the record at the end *)
   assert (Hd2 : decided r2) by (unfold decided; rewrite Hs2; reflexivity).
-  destruct (after_queue_frozen 1 idx r2 _ _ _ _ _ _ _ _ Hd2 Hq H) as [r'' [Hr'' Hsd]].
-  { exists r2. split; [exact Hr2|apply sd_refl]. }
+  destruct (after_queue_inv _ _ _ _ _ _ _ _ H) as [c3 [unr [c4 [c5 [E3 [E4 [E5 Hend]]]]]]]. clear H.
+  assert (Fz5 : Fz idx r2 c5).
+  { eapply (loop_frozen rec idx r2 q c4 c5 _ Hrec Hd2 Hq E5). eapply pfz_log_unreachable; [exact E4|].
+    eapply pfz_wf_task_event; [exact E3|]. exists r2. split; [exact Hr2|apply sd_refl]. }
+  assert (Fz' : Fz idx r2 c').
+  { destruct Hend as [-> | ->]; [exact Fz5|].
+    eapply (pfz_upd_term idx r2 idx true c5 _ (Val tt)); [reflexivity|exact Fz5]. }
+  destruct Fz' as [r'' [Hr'' Hsd]].
   rewrite Hr' in Hr''. inversion Hr''; subst r''. clear Hr''.
   assert (Hnx : r_next r' = r_next r2) by (destruct Hsd as [_ [_ [_ [_ [_ [X _]]]]]]; exact X).
   assert (He2 : ws_task_entry (c_ws c2) t route = Some r2).
   { unfold ws_task_entry, ws_task_idx in *. rewrite F1, K1, Hp. exact Hr2. }
   assert (Hu2 : unsatisfied (c_graph c2) t r2).
   { intros e He. rewrite F4, K5 in He. destruct (Hun e He) as [A|A]; [left; exact A|right; rewrite <- Hnx; exact A]. }
-  apply bind_val_inv' in H. destruct H as [c3 [unr [E3 H]]].
   assert (Hf3 : wstatus (c_ws c3) = S_FAILED).
   { destruct F3 as [F3|F3].
     - eapply unremediated_failure_fails_workflow; [|apply (has_next_unsatisfied _ _ _ _ _ true He2 Hu2)
@@ -134,8 +143,11 @@ Proof.
       rewrite F3, K4. exact Hip.
     - destruct (wf_task_event_M_spec _ _ _ _ _ _ E3) as [[e [He _]]|[u [_ Hspec]]]; [discriminate|].
       cbv zeta in Hspec. rewrite F3, F_failed_row_empty in Hspec. congruence. }
-  pose proof (after_event_reach 1 _ _ _ _ _ _ H) as Hreach. unfold StatusReach.Rst in Hreach. rewrite Hf3 in Hreach.
-  apply reach_from_failed; exact Hreach.
+  assert (Hreach : wf_reach (wstatus (c_ws c3)) (wstatus (c_ws c'))).
+  { assert (R5 : StatusReach.Rst c3 c5).
+    { eapply StatusReach.Rst_trans; [eapply pres_log_unreachable; exact E4|eapply loop_reach; [exact Hrec|exact E5]]. }
+    destruct Hend as [-> | ->]; [exact R5|]. unfold StatusReach.Rst in *. cbn [c_ws set_ws]. rewrite ws_update_rec_status. exact R5. }
+  rewrite Hf3 in Hreach. apply reach_from_failed; exact Hreach.
 Qed.
 
 (* ... unless a cancellation is in progress: any call leaves a canceling / canceled workflow in that class or failed *)
@@ -308,7 +320,7 @@ Proof.
   assert (Hs2 : r_status r2 = Some S_FAILED).
   { pose proof (map_nth_same _ _ sig _ _ _ _ _ F2 Hr1 Hr2) as E. unfold sig in E. inversion E. congruence. }
   rewrite Hs2 in H. rewrite (bind_step _ _ _ _ _ _ _ (eq_refl : ret S_FAILED c2 = (c2, Val S_FAILED))) in H.
-  apply bind_val_inv' in H. destruct H as [c3' [unr [E3 H]]].
+  destruct (after_queue_inv _ _ _ _ _ _ _ _ H) as [c3' [unr [c4 [c5 [E3 [E4 [E5 Hend]]]]]]]. clear H.
   assert (Hf3 : wstatus (c_ws c3') = S_FAILED).
   { assert (St2 : stay (wstatus (c_ws c)) c2) by (destruct F3 as [F3|F3]; [unfold stay in *; rewrite F3; exact St1|right; exact F3]).
     assert (Htr2 : g_next_transitions (c_graph c2) "fail" = []) by (rewrite F4, G1; exact Htr).
@@ -319,8 +331,88 @@ Proof.
       cbv zeta in Hspec. rewrite E, F_failed_row_empty in Hspec. congruence. }
     destruct St2 as [E|E]; [|apply Stays; exact E].
     destruct Hs0 as [Hip|Hf]; [apply Fails; rewrite E; exact Hip|apply Stays; rewrite E; exact Hf]. }
-  pose proof (after_event_reach fuel _ _ _ _ _ _ H) as Hreach. unfold StatusReach.Rst in Hreach. rewrite Hf3 in Hreach.
-  apply reach_from_failed; exact Hreach.
+  assert (Hreach : wf_reach (wstatus (c_ws c3')) (wstatus (c_ws c'))).
+  { assert (R5 : StatusReach.Rst c3' c5).
+    { eapply StatusReach.Rst_trans; [eapply pres_log_unreachable; exact E4|]. cbn [forM_] in E5. inversion E5; subst. apply StatusReach.Rst_refl. }
+    destruct Hend as [-> | ->]; [exact R5|]. unfold StatusReach.Rst in *. cbn [c_ws set_ws]. rewrite ws_update_rec_status. exact R5. }
+  rewrite Hf3 in Hreach. apply reach_from_failed; exact Hreach.
+Qed.
+
+(* ------------------------------------------------------------------ the siblings of a queued `fail` *)
+
+Definition flag (s : stg) : stg := s_set_run_on_fail s true.
+Definition flagged (l : list stg) (k : string * nat) : Prop :=
+  forall s, find (stg_matches (fst k) (snd k)) l = Some s -> s_run_on_fail s = true.
+
+Lemma find_update_same : forall n rt l s, find (stg_matches n rt) l = Some s ->
+  find (stg_matches n rt) (staged_update flag n rt l) = Some (flag s).
+Proof.
+  intros n rt l; induction l as [|x l IH]; intros s H; simpl in *; [discriminate|].
+  destruct (stg_matches n rt x) eqn:E.
+  - inversion H; subst. simpl. unfold stg_matches, flag in *. simpl. rewrite E. reflexivity.
+  - simpl. rewrite E. apply IH; exact H.
+Qed.
+Lemma find_update_any : forall n rt n' rt' l s', find (stg_matches n' rt') (staged_update flag n rt l) = Some s' ->
+  exists s, find (stg_matches n' rt') l = Some s /\ (s' = s \/ s' = flag s).
+Proof.
+  intros n rt n' rt' l; induction l as [|x l IH]; intros s' H; simpl in *; [discriminate|].
+  destruct (stg_matches n rt x) eqn:E.
+  - simpl in H. assert (M : stg_matches n' rt' (flag x) = stg_matches n' rt' x) by reflexivity. rewrite M in H.
+    destruct (stg_matches n' rt' x); [inversion H; subst; exists x; split; [reflexivity|right; reflexivity]|].
+    exists s'. split; [exact H|left; reflexivity].
+  - simpl in H. destruct (stg_matches n' rt' x); [inversion H; subst; exists s'; split; [reflexivity|left; reflexivity]|].
+    apply IH; exact H.
+Qed.
+
+Lemma flag_loop : forall (l D : list (string * nat)) c c' r,
+  forM_ l (fun '(n, rt) => modws (fun w => ws_set_staged w (staged_update (fun s => s_set_run_on_fail s true) n rt (staged w)))) c = (c', r) ->
+  (forall k, In k D -> flagged (staged (c_ws c)) k) ->
+  r = Val tt /\ (forall k, In k (app D l) -> flagged (staged (c_ws c')) k) /\ sequence (c_ws c') = sequence (c_ws c) /\
+  wstatus (c_ws c') = wstatus (c_ws c).
+Proof.
+  induction l as [|[n rt] l IH]; intros D c c' r H HD.
+  - inversion H; subst. rewrite app_nil_r. repeat split; auto.
+  - cbn [forM_] in H. unfold bind at 1, modws at 1 in H. cbv beta iota in H.
+    match type of H with forM_ _ _ ?cz = _ => set (c1 := cz) in * end.
+    destruct (IH (app D [(n, rt)]) c1 c' r H) as [A [B [C E]]].
+    + intros k Hk. apply in_app_or in Hk. unfold c1; cbn [c_ws set_ws staged ws_set_staged].
+      intros s' Hs'. change (fun s => s_set_run_on_fail s true) with flag in Hs'.
+      destruct Hk as [Hk|[<-|[]]].
+      * destruct (find_update_any _ _ _ _ _ _ Hs') as [s [Hs [->| ->]]]; [apply (HD k Hk); exact Hs|reflexivity].
+      * cbn [fst snd] in Hs'. destruct (find_update_any _ _ _ _ _ _ Hs') as [s [Hs _]].
+        rewrite (find_update_same _ _ _ _ Hs) in Hs'. inversion Hs'; reflexivity.
+    + split; [exact A|]. split; [intros k Hk; apply B; rewrite <- app_assoc; exact Hk|]. split; [exact C|exact E].
+Qed.
+
+(* when `fail` is among the commands the transitions queue, every sibling the same completion staged ready (the
+   second components of the transitions' results) is flagged run_on_fail when the queue is returned *)
+Theorem fail_flags_siblings : forall t route idx ts o n ctx b c c' q rt,
+  uts_queue ev t route idx ts o n (Some (ctx, b)) c = (c', Val q) -> In ("fail", rt) q ->
+  exists c1 c2 rs,
+    mapM (process_transition ev t route idx ts ctx) (g_next_transitions (c_graph c) t) c1 = (c2, Val rs) /\
+    q = flat_map (fun '(x, _) => match x with Some y => [y] | None => [] end) rs /\
+    forall k, In k (flat_map (fun '(_, x) => match x with Some y => [y] | None => [] end) rs) ->
+      flagged (staged (c_ws c')) k.
+Proof.
+  intros t route idx ts o n ctx b c c' q rt H Hin. unfold uts_queue in H.
+  destruct (negb (status_eqb n o)); [|inversion H; subst; destruct Hin].
+  apply bind_val_inv' in H. destruct H as [c0 [cst [E0 H]]]. inversion E0; subst c0 cst; clear E0. cbv zeta in H.
+  apply bind_val_inv' in H. destruct H as [c1 [u1 [_ H]]].
+  apply bind_val_inv' in H. destruct H as [c2 [rs [E2 H]]].
+  apply bind_val_inv' in H. destruct H as [c3 [u3 [E3 H]]].
+  apply bind_val_inv' in H. destruct H as [c4 [r4 [Eg H]]]. apply get_rec_inv in Eg. destruct Eg as [-> _].
+  apply bind_val_inv' in H. destruct H as [c5 [u5 [E5 H]]]. inversion H; subst c' q; clear H.
+  exists c1, c2, rs. split; [exact E2|]. split; [reflexivity|].
+  assert (Hex : existsb (fun '(n0, _) => String.eqb n0 "fail")
+                  (flat_map (fun '(x, _) => match x with Some y => [y] | None => [] end) rs) = true).
+  { apply existsb_exists. exists ("fail", rt). split; [exact Hin|reflexivity]. }
+  rewrite Hex in E3.
+  destruct (flag_loop _ [] _ _ _ E3) as [_ [B _]]; [intros k []|]. simpl in B.
+  assert (S5 : staged (c_ws c5) = staged (c_ws c3)).
+  { destruct (g_next_transitions (c_graph c) t); [inversion E5; reflexivity|].
+    destruct (existsb _ (r_next r4)); [inversion E5; reflexivity|].
+    unfold upd_rec, modws in E5. inversion E5; subst. cbn [c_ws set_ws]. apply staged_update_rec. }
+  intros k Hk. rewrite S5. apply B; exact Hk.
 Qed.
 
 End WithEval.
